@@ -1,0 +1,79 @@
+//go:build verif
+// +build verif
+
+package rafthttp
+
+import (
+	"io"
+
+	"github.com/youzan/ZanRedisDB/pkg/types"
+	"github.com/youzan/ZanRedisDB/raft/raftpb"
+	"github.com/youzan/ZanRedisDB/stats"
+)
+
+// Exports for the verification harness (/verif, property C16): constructors for the
+// unexported stream codecs, built exactly as stream.go / http.go / snapshot_sender.go
+// build them.  Nothing here changes behaviour; the file only exists under tag `verif`.
+
+// VerifMsgAppV2BufSize is the size of the reusable buffer of the msgappv2 codec and of
+// newMessageDecoder.
+const VerifMsgAppV2BufSize = msgAppV2BufSize
+
+// Frame type bytes of the msgappv2 stream.
+const (
+	VerifMsgTypeLinkHeartbeat = msgTypeLinkHeartbeat
+	VerifMsgTypeAppEntries    = msgTypeAppEntries
+	VerifMsgTypeApp           = msgTypeApp
+)
+
+// VerifReadBytesLimit returns the size limit of messageDecoder.
+func VerifReadBytesLimit() uint64 { return readBytesLimit }
+
+// VerifEncoder / VerifDecoder are the exported faces of encoder / decoder.
+type VerifEncoder interface {
+	Encode(m *raftpb.Message) error
+}
+
+type VerifDecoder interface {
+	Decode() (raftpb.Message, error)
+}
+
+type verifEnc struct{ e encoder }
+
+func (v verifEnc) Encode(m *raftpb.Message) error { return v.e.encode(m) }
+
+type verifDec struct{ d decoder }
+
+func (v verifDec) Decode() (raftpb.Message, error) { return v.d.decode() }
+
+// VerifNewMsgAppV2Encoder is streamWriter.run's `newMsgAppV2Encoder(conn.Writer, cw.ps)`.
+func VerifNewMsgAppV2Encoder(w io.Writer) VerifEncoder {
+	return verifEnc{newMsgAppV2Encoder(w, &stats.PeerStats{})}
+}
+
+// VerifNewMsgAppV2Decoder is streamReader.decodeLoop's
+// `newMsgAppV2Decoder(rc, cr.tr.ID, cr.peerID)`.
+func VerifNewMsgAppV2Decoder(r io.Reader, local, remote types.ID) VerifDecoder {
+	return verifDec{newMsgAppV2Decoder(r, local, remote)}
+}
+
+// VerifNewMessageEncoder is `&messageEncoder{w: w}` (stream.go, snapshot_sender.go).
+func VerifNewMessageEncoder(w io.Writer) VerifEncoder {
+	return verifEnc{&messageEncoder{w: w}}
+}
+
+// VerifNewMessageDecoder is `newMessageDecoder(r)` (stream reader: with the reusable
+// buffer) or, with buffered == false, `&messageDecoder{r: r}` (pipeline / snapshot
+// handlers in http.go: no buffer).
+func VerifNewMessageDecoder(r io.Reader, buffered bool) VerifDecoder {
+	if buffered {
+		return verifDec{newMessageDecoder(r)}
+	}
+	return verifDec{&messageDecoder{r: r}}
+}
+
+// VerifLinkHeartbeatMessage returns a copy of the link-layer heartbeat message.
+func VerifLinkHeartbeatMessage() raftpb.Message { return linkHeartbeatMessage }
+
+// VerifIsLinkHeartbeatMessage is isLinkHeartbeatMessage.
+func VerifIsLinkHeartbeatMessage(m *raftpb.Message) bool { return isLinkHeartbeatMessage(m) }
